@@ -205,6 +205,10 @@ def preserved_gprs(obj, sym):
     return keep
 
 
+class KernelOverrun(Exception):
+    pass
+
+
 class HResult:
     def __init__(self):
         self.obl, self.viol = [], []
@@ -268,8 +272,12 @@ def run_scenario(ctx, variant, h, lengths, script=None, taglens=None, hoff=0, sa
 
     def kernel_stub(E_, s, target):
         n = conc(simp(s.r[6]))
-        if n is None or n < 1 or n > 2048:
-            raise Unsupported('kernel called with a non-concrete / out-of-range block count %s' % s.r[6])
+        if n is not None and n > 2048:
+            # far more blocks than any job of the script has left: the lane lengths were corrupted (e.g. a wrapped 16-bit subtraction) and
+            # the real kernel would read n blocks beyond every lane's buffer
+            raise KernelOverrun('the manager asks the block kernel for %d blocks although no lane of the script has more than %d left' % (n, max(lengths) // H['blk'] + 3))
+        if n is None or n < 1:
+            raise Unsupported('kernel called with a non-concrete / zero block count %s' % s.r[6])
         m = [r for r in s.regions if r.name == 'mgr'][0]
         for lane in range(kl):
             p = conc(simp(rd(m, O['data_ptr'] + 8 * lane, 8)))
@@ -318,6 +326,12 @@ def run_scenario(ctx, variant, h, lengths, script=None, taglens=None, hoff=0, sa
                     returned[id(f)] = hist + [(step, op, ret)]
                     nxt.append(f)
             states = nxt
+    except KernelOverrun as e:
+        res.obl.append((name + ' C02 lane lengths stay consistent with the jobs of the script', False, str(e), time.time() - t0))
+        res.obl.append((name + ' C07 the block kernel is never asked to read beyond the lanes\' buffers', False, str(e), 0))
+        res.viol.append(('C02:%s:job:tag' % name, str(e) + ': co-scheduled jobs skip message blocks / read far past their buffers'))
+        res.viol.append(('C07:%s' % name, str(e)))
+        return res
     except (Unsupported, BoundExceeded) as e:
         res.obl.append((name, None, 'inconclusive: ' + str(e)[:300], time.time() - t0))
         return res
@@ -436,6 +450,14 @@ def scenarios(h, quick, variant='sse'):
             ls.append(pool[(i + n + k) % len(pool)])
             k += 1
         out.append(dict(lengths=ls))
+    # position of the minimum: managers search the minimum per half / with lane-indexed masks, so the lane holding the strictly smallest
+    # block count is moved through the lanes (first, last, middle, middle+1) while every other lane has more (and different) work
+    if nl >= 4:
+        blk = H['blk']
+        for j in sorted(set([0, nl - 1, nl // 2, min(nl - 1, nl // 2 + 1)])):
+            ls = [blk * (3 + (i % 3)) + (i % 2) * 7 for i in range(nl)]
+            ls[j] = blk + 5
+            out.append(dict(lengths=ls + [2 * blk]))
     out.append(dict(lengths=[20, 7], hoff=3))
     out.append(dict(lengths=[pool[1]], taglens=[H['tags'][1]]))
     return out
